@@ -1045,6 +1045,9 @@ class _AsyncConnectionWrapper:
                 self.q_expected_select.append((ts_step, num_msgs))
                 self.push_selection()
 
+                # The same timestamps may already determine the next step's messages: check again (see push_selection).
+                self.push_expected_nonblocking()
+
     def push_expected_blocking(self):
         assert self.connection.blocking, "This function should only be called for blocking inputs."
         has_ts_next_step = len(self.q_ts_next_step) > 0
@@ -1115,6 +1118,9 @@ class _AsyncConnectionWrapper:
 
             # Push push_phase_shift (must be called from node thread)
             self.input_node._submit(self.input_node.push_phase_shift)
+
+            # The next expected number of timestamps may already be available: check again (see push_selection).
+            self.push_ts_max()
 
     def push_ts_input(self, msg, header: base.Header):
         # WALL_CLOCK: called by input.push_input --> msg: actual message
@@ -1269,6 +1275,10 @@ class _AsyncConnectionWrapper:
 
                 # Push step (must be called from node thread)
                 self.input_node._submit(self.input_node.push_step)
+
+                # The next expected selection may already be complete (e.g. it expects no messages). No further event
+                # may arrive to trigger it, so check again.
+                self.push_selection()
 
 
 def update_input_state(input_state: base.InputState, seq: int, ts_sent: float, ts_recv: float, data: Any) -> base.InputState:
